@@ -61,6 +61,11 @@ def _th():
     return '%g,%g,%g,%g,%g,%g,%g' % (t['peak'], t['decay'], t['reconv'], t['fecratio'], t['decay2'], t['fecframe'], t['reconvw'])
 
 
+def _th2():
+    t = CALIB['thresholds']
+    return '%g,%g,%g,%g' % (t['rdecay'], t['rdecay2'], t['rhdecay'], t['rhdecay2'])
+
+
 def _k(ctx):
     return (7, 10) if ctx.quick else (10, 40)
 
@@ -128,23 +133,28 @@ def classify(ctx, tie, mm):
 def search(ctx):
     """C09 predicates on the implementation (no model): requested duration returned by every concealment / FEC call whatever the
     loss pattern and call shape, finite output, concealed peak <= peak x level before the loss, level of every output channel 1 s / 2 s
-    into a sustained loss <= decay / decay2 x its pre-loss level, every frame rebuilt from LBRR data within fecframe x max(frame level,
+    into a sustained loss <= decay / decay2 x its pre-loss level, and — loss-pattern family "burst of 3-20 s, k = 1..3 received packets,
+    sustained burst" on streams with a quiet lead-in followed by loud stationary content — 1 s / 2 s into the SECOND burst <= rdecay / rdecay2
+    (CELT-only; rhdecay / rhdecay2 hybrid) x the level of the k packets received before it, every frame rebuilt from LBRR data within fecframe x max(frame level,
     concealment error), re-convergence to the loss-free twin 400 ms after packets resume and, on soft-burst / pause / loud-onset
     streams with the loss at the end of the soft burst, in EVERY 5 ms window until >= 1 s after the loss (reconvw), every received packet decodes
     with the encoder's final range, opus_packet_has_lbrr == LBRR flag decoded by silk_Decode, FEC error energy <= fecratio x
     PLC error energy where concealment fails; thresholds from tools/props/C09_calib.json."""
     k, b = (8, 10) if ctx.quick else (12, 60)
-    runs = [('plain', ctx.seed + 1000, k, b), ('san', ctx.seed + 2000, 6 if ctx.quick else 10, b)]
+    # third job: the rebound sessions (burst - k received packets - sustained burst on quiet-lead-in / loud stationary streams)
+    runs = [('plain', ctx.seed + 1000, k, b), ('san', ctx.seed + 2000, 6 if ctx.quick else 10, b),
+            ('plain', ctx.seed + 4000, -1, 10 if ctx.quick else 40)]
     cases, wit, kinds, samples, stats = 0, [], {}, [], []
+    c01.harness(ctx, 'c09_loss', 'plain')   # two of the parallel jobs share this binary: build it once, before the pool starts
 
     def one(variant, seed, kk, bb):
         h = c01.harness(ctx, 'c09_loss', variant)
-        args = ['loss', str(seed), str(kk), str(bb), _th(), 'quiet']
+        args = ['loss', str(seed), str(kk), str(bb), _th(), 'quiet'] if kk >= 0 else ['rebound', str(seed), str(bb), _th2(), 'quiet']
         rc, out, err = c01._run_search(h, args, 3000)
         return variant, h, args, rc, out, err
 
     for variant, h, args, rc, out, err in c01.parallel(one, runs):
-        m = re.search(r'# loss seed=\d+ k=\d+ bursts=\d+ sessions=(\d+) calls=(\d+) witnesses=(\d+).*', out)
+        m = re.search(r'# (?:loss|rebound) seed=\d+ (?:k=\d+ bursts=\d+ )?sessions=(\d+) calls=(\d+) witnesses=(\d+).*', out)
         if m:
             cases += int(m.group(2))
         ms = re.search(r'# stats .*', out)
@@ -154,7 +164,7 @@ def search(ctx):
             if line.startswith('W '):
                 kind, what, inp = (line[2:].split(' | ') + ['', ''])[:3]
                 kinds[kind] = kinds.get(kind, 0) + 1
-                wit.append({'suite': 'loss-search-%s' % variant, 'input': inp, 'expected': 'C09 predicate holds', 'observed': what,
+                wit.append({'suite': '%s-search-%s' % (args[0], variant), 'input': inp, 'expected': 'C09 predicate holds', 'observed': what,
                             'why': '%s (reproduce: %s %s)' % (kind, os.path.basename(h), ' '.join(args))})
             elif line.startswith('O ') and line[2:].split(' ')[0] in ('SANITIZER', 'ABORT', 'TIMEOUT', 'SIGSEGV'):
                 prev = [l for l in out.split('\n') if l.startswith('I ')]
